@@ -16,11 +16,13 @@ import (
 // dChunking is one environment choice for how a byte stream is delivered: a
 // Read never crosses an offset listed in cuts and never returns more than max
 // bytes (0 = unlimited). With eofData the final chunk is returned together
-// with io.EOF (which io.Reader allows).
+// with io.EOF (which io.Reader allows). With zero every chunk is preceded by
+// one Read that returns (0, nil) (which io.Reader discourages but allows).
 type dChunking struct {
 	cuts    []int
 	max     int
 	eofData bool
+	zero    bool
 }
 
 func (k dChunking) String() string {
@@ -36,6 +38,9 @@ func (k dChunking) String() string {
 	if k.eofData {
 		s += "+eofdata"
 	}
+	if k.zero {
+		s += "+zeroreads"
+	}
 	return s
 }
 
@@ -47,6 +52,7 @@ type dChunkReader struct {
 	k     dChunking
 	ci    int
 	reads int
+	gave0 bool
 }
 
 func newChunkReader(data []byte, k dChunking) *dChunkReader {
@@ -60,6 +66,13 @@ func (r *dChunkReader) Read(p []byte) (int, error) {
 	}
 	if len(p) == 0 {
 		return 0, nil
+	}
+	if r.k.zero {
+		if !r.gave0 {
+			r.gave0 = true
+			return 0, nil
+		}
+		r.gave0 = false
 	}
 	end := len(r.data)
 	for r.ci < len(r.k.cuts) && r.k.cuts[r.ci] <= r.pos {
